@@ -329,3 +329,47 @@ def rule_def_arg_order(rep, fb, floor=10, name="TABLE.binding-arg-order"):
                 continue
             r.check(ok, key, "%s:%d" % (f["file"], d[-1] if isinstance(d[-1], int) else f["line"]), "%s registers %s::%s with py::args %s, but the C++ parameters are %s in that order" % (f["qual"], clsname, meth, args, list(cands[0][1])), detail="py::arg order = parameter order")
     return r.done()
+
+
+def rule_stride_division(rep, fb, floor=3, name="UNIT.stride-division"):
+    r = rep.rule(name, "byte strides (strides_[i], buffer_info.strides[i], self.strides()[i]) are divided by an item size only where the strides are known to be multiples of it: "
+                 "in a function that first tests iscontiguous(), takes the buffer from numpy.ascontiguousarray / numpy.nonzero (fresh C-order arrays), or tests `stride % itemsize` and throws; "
+                 "a truncated quotient addresses other bytes than the array's items", floor=floor)
+    n = 0
+    seen = set()
+    for f in lifted(fb, with_lib=True):
+        if f.get("is_lambda") is None and find_all(f["body"], lambda k: k[0] == "lambda"):
+            # divisions inside lambdas are judged in the lifted lambda
+            inner = set(id(d) for lam in find_all(f["body"], lambda k: k[0] == "lambda") for d in find_all(lam[2], lambda k: k[0] == "bin" and k[1] in ("/", "f/")))
+        else:
+            inner = set()
+        for d in find_all(f["body"], lambda k: k[0] == "bin" and k[1] in ("/", "f/") and "strides" in repr(k[2]) and find_all((k[2],), lambda m: m[0] == "idx")):
+            if id(d) in inner or id(d) in seen:
+                continue
+            seen.add(id(d))
+            n += 1
+            body = f["body"]
+            contig = bool(find_all(body, lambda k: k[0] == "if" and find_all((k[1],), lambda m: m[0] == "mcall" and m[1] == "iscontiguous")))
+            modguard = bool(find_all(body, lambda k: k[0] == "if" and find_all((k[1],), lambda m: m[0] == "bin" and m[1] == "%" and "stride" in repr(m[2])) and find_all(k[2], lambda m: m[0] == "throw")))
+            # the buffer divided: info variable -> array variable -> producing numpy call
+            src = None
+            infos = [m[1][1] for m in find_all((d[2],), lambda m: m[0] == "member" and m[2] == "strides" and m[1][0] == "var")]
+            fresh = False
+            for iv in infos:
+                for dd in find_all(body, lambda k: k[0] == "decl" and k[1] == iv and k[3] is not None):
+                    arrs = [m[3][1] for m in find_all((dd[3],), lambda m: m[0] == "mcall" and m[1] == "request" and m[3][0] == "var")]
+                    for av in arrs:
+                        txt = repr([k[3] for k in find_all(body, lambda k: k[0] == "decl" and k[1] == av)])
+                        objs = re.findall(r"\('var', '(\w+)'\)", txt)
+                        alltxt = txt + repr([k[3] for k in find_all(body, lambda k: k[0] == "decl" and k[1] in objs)])
+                        if "ascontiguousarray" in alltxt:
+                            fresh = True
+                        elif "'asarray'" in alltxt and "nonzero_tuple" in repr(body):
+                            # numpy.asarray(x, int64) of an item of numpy.nonzero(...): nonzero returns fresh C-order int64 arrays
+                            loops = find_all(body, lambda k: k[0] == "foreach" and "nonzero" in repr(k[3]) and find_all(k[4], lambda m: m is d))
+                            fresh = fresh or bool(loops)
+            ok = contig or modguard or fresh
+            r.check(ok, "%s#%d" % (f["qual"], n), "%s:%d" % (f["file"], f["line"]),
+                    "%s divides byte strides by an item size without knowing that they are multiples of it (no iscontiguous() test, no `%% itemsize` guard, buffer not from ascontiguousarray/nonzero)" % f["qual"],
+                    detail="contiguous" if contig else ("stride % itemsize guarded" if modguard else "fresh C-order buffer"))
+    return r.done()
